@@ -24,6 +24,7 @@ cd $V
 git -C /repo diff --quiet || { echo "/repo not clean"; exit 2; }
 git -C /repo apply $wt/seeded/patch.diff || { echo "patch does not apply to /repo"; exit 2; }
 res=""
+export VERIF_EVIDENCE_DIR=$V/.cache/evidence-seedtest   # never overwrite evidence/ with runs against a broken tree
 for c in "$@"; do
   out=$(./check $c --tier quick 2>&1); rc=$?
   first=$(echo "$out" | grep -A1 "^VIOLATION" | head -2 | tr '\n' ' ' | cut -c1-400)
